@@ -1,4 +1,5 @@
 import LarkVerif.Heap
+import LarkVerif.DeepCopy
 import LarkVerif.LRComplete
 import LarkVerif.LRError
 /-! # C13 — interactive parser: forks independent, resume equals parse -/
@@ -61,5 +62,27 @@ theorem accepts_is_exact (T : LRProto.Table) (terms : List Nat) (eof fuel : Nat)
 -- non-vacuity: the aliased case really differs (a fork that still reaches the mutated list sees the change)
 example : den (appendInPlace (fun _ => [HV.tok 0 0]) 0 [HV.tok 1 1]) 1 (HV.tree 7 0) = some (Val.tree 7 [Val.tok 0 0, Val.tok 1 1]) := by rfl
 example : den (fun _ => [HV.tok 0 0]) 1 (HV.tree 7 0) = some (Val.tree 7 [Val.tok 0 0]) := by rfl
+
+/-- **What `copy()` establishes** (`ParserState.copy` deep-copies the value stack): for a finite value whose list objects all lie below the allocation
+    pointer `nx`, the deep copy leaves every old object untouched, consists of fresh list objects only (addresses in `[nx, nx')`), and denotes the
+    same pure value — the disjointness that `fork_independent` assumes. -/
+theorem deepcopy_is_fresh_and_equal (f : Nat) (h : Heap) (nx : Ref) (v : HV) (hb : Below h f nx v) (hfin : Fin h f v) :
+    Spec f h nx v (deepcopy f h nx v) := deepcopy_spec f h nx v hb hfin
+
+/-- after `copy()`, an in-place append by the **original** (the LALR tree builder extends the child list of an inlined `_rule` in place) does not change
+    what the fork denotes … -/
+theorem fork_survives_mutation_of_original (f : Nat) (h : Heap) (nx : Ref) (v : HV) (hb : Below h f nx v) (hfin : Fin h f v)
+    (r : Ref) (hr : r < nx) (extra : List HV) :
+    den (appendInPlace (deepcopy f h nx v).1 r extra) f (deepcopy f h nx v).2.2 = den h f v :=
+  copy_then_mutate_original f h nx v hb hfin r hr extra
+
+/-- … and an in-place append by the **fork** does not change what the original denotes. -/
+theorem original_survives_mutation_of_fork (f : Nat) (h : Heap) (nx : Ref) (v : HV) (hb : Below h f nx v) (hfin : Fin h f v)
+    (r : Ref) (hr : nx ≤ r) (extra : List HV) :
+    den (appendInPlace (deepcopy f h nx v).1 r extra) f v = den h f v :=
+  copy_then_mutate_copy f h nx v hb hfin r hr extra
+
+-- non-vacuity: Tree(0, [Tree(1, [tok])]) at addresses 0 and 1, copied to 2 and 3
+example : (deepcopy 3 (fun r => if r = 0 then [HV.tree 1 1] else if r = 1 then [HV.tok 7 7] else []) 2 (HV.tree 0 0)).2 = (4, HV.tree 0 2) := by decide
 
 end Props.C13
